@@ -134,6 +134,48 @@ impl Part for C01 {
                 return out;
             }
         };
+        // the single-shot forms paired with the context forms: what single_shot_seal* produces a receiver
+        // CONTEXT must open (as its first message), and what a sender CONTEXT seals first single_shot_open* must open
+        if !shapes.is_empty() {
+            let (pl, al) = shapes[shapes.len() / 2];
+            let pt = bytes(c.fill, pl, 500, cfg.seed);
+            let aad = bytes(c.fill, al, 501, cfg.seed);
+            let mut rng2 = ScriptRng::new(&k.ikm_e);
+            let mut buf = pt.clone();
+            match ops.single_shot_seal_ip(&m, &k.pk_r, &info, &mut buf, &aad, &mut rng2) {
+                Obs::Ok((enc2, tag2)) => {
+                    out.check("single_shot_seal_in_place_detached: buffer length unchanged, Nt-byte tag", buf.len() == pl && tag2.len() == nt);
+                    match ops.setup_receiver(&m, &k.sk_r, &enc2, &info) {
+                        Obs::Ok(mut r2) => {
+                            let wire = [&buf[..], &tag2[..]].concat();
+                            expect_bytes(&mut out, "receiver context opens the single_shot_seal_in_place_detached message", &r2.open(&wire, &aad), &pt);
+                        }
+                        o => out.fail(format!("setup_receiver for the single-shot message: {}", o.map(|_| ()).class())),
+                    }
+                }
+                o => out.fail(format!("single_shot_seal_in_place_detached: {}", o.map(|_| ()).class())),
+            }
+            let mut rng3 = ScriptRng::new(&k.ikm_e);
+            match ops.single_shot_seal(&m, &k.pk_r, &info, &pt, &aad, &mut rng3) {
+                Obs::Ok((enc3, ct3)) => {
+                    out.check("single_shot_seal: |ct| = |pt| + Nt", ct3.len() == pl + nt);
+                    let mut b = ct3[..ct3.len() - nt].to_vec();
+                    let o = ops.single_shot_open_ip(&m, &k.sk_r, &enc3, &info, &mut b, &aad, &ct3[ct3.len() - nt..]).map(|_| b.clone());
+                    expect_bytes(&mut out, "single_shot_open_in_place_detached opens the single_shot_seal message", &o, &pt);
+                }
+                o => out.fail(format!("single_shot_seal: {}", o.map(|_| ()).class())),
+            }
+            // a sender context's first message, opened by the two single-shot open forms
+            let mut rng4 = ScriptRng::new(&k.ikm_e);
+            if let Obs::Ok((enc4, mut s4)) = ops.setup_sender(&m, &k.pk_r, &info, &mut rng4) {
+                if let Obs::Ok(ct4) = s4.seal(&pt, &aad) {
+                    expect_bytes(&mut out, "single_shot_open opens a sender context's first message", &ops.single_shot_open(&m, &k.sk_r, &enc4, &info, &ct4, &aad), &pt);
+                    let mut b = ct4[..ct4.len() - nt].to_vec();
+                    let o = ops.single_shot_open_ip(&m, &k.sk_r, &enc4, &info, &mut b, &aad, &ct4[ct4.len() - nt..]).map(|_| b.clone());
+                    expect_bytes(&mut out, "single_shot_open_in_place_detached opens a sender context's first message", &o, &pt);
+                }
+            }
+        }
         // R1 in lock-step (ties the round trip to the RFC bytes as well)
         // (RFC 9180 defines no output for an empty PSK in a PSK mode: round trip only, no R1 bytes)
         let rfc_defined = !(c.mode.has_psk() && c.psk_len == 0);
